@@ -425,8 +425,8 @@ pub fn generate(profile: &str, seed: u64, index: u64) -> NScenario {
             let fake = *rng.pick(&fake_ids);
             let fault = if profile == "C11" && rng.chance(1, 6) {
                 "enomem"
-            } else if rng.chance(1, 40) {
-                *rng.pick(&["enomem", "mprotect"])
+            } else if rng.chance(1, 25) {
+                *rng.pick(&["enomem", "mprotect", "enomem_transient", "enomem_transient"])
             } else {
                 ""
             };
@@ -435,7 +435,7 @@ pub fn generate(profile: &str, seed: u64, index: u64) -> NScenario {
                 classes.push(format!("fault-{fault}"));
             }
             ops.push(NOp { op: "install".into(), target: t, kind: kind.into(), fake, value: rng.chance(1, 2), fault: fault.into() });
-            if fault.is_empty() {
+            if fault.is_empty() || fault == "enomem_transient" {
                 faked.push(t);
             }
             // calls after most installs
@@ -756,6 +756,7 @@ impl<'a> Run<'a> {
         let mut f = Faults::default();
         match op.fault.as_str() {
             "enomem" => f.enomem_all = true,
+            "enomem_transient" => f.enomem_first = 1 + (op.fake as u64 % 5),
             "mprotect" => f.mprotect_fail_next = true,
             _ => {}
         }
@@ -856,7 +857,7 @@ impl<'a> Run<'a> {
                 self.installs_ok += 1;
                 self.named[t] = true;
                 self.model[t].push(val);
-                if !op.fault.is_empty() && (fl.fired_enomem > 0 || fl.fired_mprotect > 0) {
+                if !op.fault.is_empty() && op.fault != "enomem_transient" && (fl.fired_enomem > 0 || fl.fired_mprotect > 0) {
                     self.v("install-succeeded-despite-refused-syscall", &["C11"], format!("{what}: the OS refused ({}) yet the installation reported success", op.fault));
                 }
                 let off = self.target_addr(t) % PS;
@@ -998,6 +999,33 @@ pub fn execute(sc: &NScenario, sh: &Shared) -> Value {
         // scope exit
         sh.note(PH_DROP, li as u64, 0, lt.exit_panic as u64);
         let mark = interpose::ledger_len();
+        // another thread calls the functions at every OS-call boundary of the restoration: each
+        // function shows one of its fakes of this lifetime or its original, never anything else
+        let mut watch: Vec<(String, usize, u64, Vec<(u32, u32)>)> = Vec::new();
+        for ti in 0..sc.targets.len() {
+            let mask = if sc.targets[ti].ret == "bool" { 0xFF } else { u32::MAX };
+            let mut allowed: Vec<(u32, u32)> = vec![(run.target_orig(ti), mask)];
+            for inst in &run.model[ti] {
+                allowed.push(match inst {
+                    Inst::Val(v) => (*v, mask),
+                    Inst::Bool(b) => (*b as u32, 0xFF),
+                });
+            }
+            watch.push((sc.targets[ti].kind.clone(), sc.targets[ti].idx, run.target_addr(ti), allowed));
+        }
+        let findings: std::rc::Rc<std::cell::RefCell<Vec<String>>> = Default::default();
+        let f2 = findings.clone();
+        let obs_n: std::rc::Rc<std::cell::Cell<u64>> = Default::default();
+        let obs_n2 = obs_n.clone();
+        interpose::set_observer(Some(Box::new(move |point| {
+            for (kind, idx, addr, allowed) in &watch {
+                let g = if kind == "synth" { arena::call_u32(*addr) } else { real_target_call(*idx) };
+                obs_n2.set(obs_n2.get() + 1);
+                if !allowed.iter().any(|(v, m)| g & m == v & m) {
+                    f2.borrow_mut().push(format!("at the {point} boundary a call of the function at {:#x} from another thread returned {:#x}; allowed (value, mask) {:x?}", addr, g, allowed));
+                }
+            }
+        })));
         interpose::arm(true);
         let r = catch_unwind(AssertUnwindSafe(move || {
             let _inj = inj;
@@ -1006,6 +1034,14 @@ pub fn execute(sc: &NScenario, sh: &Shared) -> Value {
             }
         }));
         interpose::arm(false);
+        interpose::set_observer(None);
+        run.calls += obs_n.get();
+        if obs_n.get() > 0 {
+            *run.probes.entry("calls_interleaved_with_restoration".into()).or_insert(0) += obs_n.get();
+        }
+        if let Some(f) = findings.borrow().first() {
+            run.v("call-during-restoration-saw-neither-a-fake-nor-the-original", &["C02", "C01"], format!("lifetime {li} scope exit: {f}"));
+        }
         let ledger = interpose::ledger_since(mark);
         if lt.exit_panic {
             *run.faults.entry("injected_panic_at_scope_exit".into()).or_insert(0) += 1;
